@@ -1598,6 +1598,45 @@ end Goml.Gen
 """)
 
 EXTRACTORS += [c03_gen_ty_consts]
+
+
+# ---------------------------------------------------------------- C07: order of the two callee lookups of mono_expr
+def c07_gen_mono_lookup():
+    """mono_expr, case ECall: a directly named callee is looked up (1) under the name as Core spells it and
+    only when that fails (2) through inherent_method_index, (base type, method) -> the generic impl function.
+    The order decides which body runs when `impl[T] B[T]` and `impl B[int32]` define the same method."""
+    t = _norm(src("crates/compiler/src/mono.rs"))
+    m = re.search(r"let callee_opt = (.*?);\s*let Some\(callee\) = callee_opt else", t, flags=re.S)
+    if not m:
+        raise Exception("anchor lost: mono.rs `let callee_opt = …; let Some(callee) = callee_opt else` (callee resolution of ECall)")
+    expr = m.group(1)
+    a = expr.find("ctx.orig_fns.get(func_name)")
+    b = expr.find("inherent_method_index")
+    if a < 0 or b < 0 or expr.count("ctx.orig_fns.get(func_name)") != 1:
+        raise Exception("anchor lost: the callee resolution of ECall no longer consists of `ctx.orig_fns.get(func_name)` and an `inherent_method_index` lookup")
+    if not (expr.startswith("ctx.orig_fns.get(func_name).or_else(") and a < b):
+        raise Exception("mono.rs: the callee of a direct call is no longer looked up as spelled FIRST and through inherent_method_index only as a fallback")
+    if t.count("inherent_method_index") != 5:
+        raise Exception(f"anchor lost: mono.rs mentions inherent_method_index {t.count('inherent_method_index')} times (expected 5: field, build x3, one lookup)")
+    write_if_changed("MonoLookup.lean", """/- GENERATED by tools/extract.py from crates/compiler/src/mono.rs (mono_expr, case ECall) — do not edit; regenerated on every ./check run -/
+
+namespace Goml.Gen
+
+/-- where `mono_expr` looks for the definition of a directly named callee -/
+inductive CalleeLookup where
+  /-- `ctx.orig_fns.get(func_name)`: the name exactly as Core spells it -/
+  | asSpelled
+  /-- `inherent_method_index`: `inherent#Base#…#method` ↦ the generic `impl[..] Base[..]` function of that method -/
+  | inherentIndex
+  deriving DecidableEq, Repr, Inhabited
+
+/-- the lookups in the order mono.rs tries them (`a.or_else(|| b)`) -/
+def calleeLookupOrder : List CalleeLookup := [.asSpelled, .inherentIndex]
+
+end Goml.Gen
+""")
+
+EXTRACTORS += [c07_gen_mono_lookup]
 EXTRACTORS += [gen_dce_tables]
 
 # ---------------------------------------------------------------- C09: guards of anf.rs
